@@ -403,6 +403,70 @@ def stage_corr(ctx: Ctx, progs):
                        [meta[i] for i in failed])
 
 
+LHDR = ('From Coq Require Import List Bool Arith.\nFrom PF Require Import models.WalkLeave.\nImport ListNotations.\n'
+        'Fixpoint nl_eqb (a b : list nat) : bool := match a, b with [], [] => true | x :: a\', y :: b\' => Nat.eqb x y && nl_eqb a\' b\' | _, _ => false end.\n'
+        'Fixpoint pl_eqb (a b : list (nat * bool)) : bool := match a, b with [], [] => true | (x, p) :: a\', (y, q) :: b\' => Nat.eqb x y && Bool.eqb p q && pl_eqb a\' b\' | _, _ => false end.\n')
+
+
+def stage_leave_corr(ctx: Ctx, progs):
+    """models/WalkLeave.v lrun / brun == the real walk(True, on='leave' / 'both') of unmodified trees under random send() decisions"""
+    import fst
+    rng = ctx.rng
+    small = [p for p in progs if len(p) < 400] + RESEND_PROGS
+    terms, meta = [], []
+    for it in range(ctx.scale(120, 1200)):
+        src = rng.choice(small)
+        root = fst.FST(src, 'exec')
+        nodes = list(root.walk(True))
+        if len(nodes) > 120:
+            continue
+        W = rng.choice([root] + [f for f in nodes if list(f.walk(True, self_=False, recurse=False))][:40])
+        sub = list(W.walk(True))
+        ids = {id(f): i for i, f in enumerate(sub)}
+
+        def enc(f):
+            return f'(Node {ids[id(f)]} [' + '; '.join(enc(c) for c in f.walk(True, self_=False, recurse=False)) + '])'
+        on = rng.choice(['leave', 'both'])
+        back = False
+        budget = 3          # re-walks requested
+        gen = W.walk(True, on)
+        out, ds = [], []
+        try:
+            for g in gen:
+                n, leaving = g if isinstance(g, tuple) else (g, True)
+                out.append((ids[id(n)], leaving))
+                r = rng.random()
+                d = None
+                if r < 0.08 and budget and leaving:
+                    d = True
+                    budget -= 1
+                elif r < 0.2 and not (on == 'both' and n is W and not leaving):
+                    d = False       # (send(False) at the ENTRY of the walk root ends an on='both' walk without the leaving yield an inner node still gets: modelled for inner nodes only)
+                elif r < 0.25 and not leaving:
+                    d = True
+                ds.append(d)
+                if d is not None:
+                    gen.send(d)
+                if len(out) > 1500:
+                    raise RuntimeError('does not end')
+        except Exception as e:
+            ctx.violation(f'leave-corr-raise|{on}|{type(e).__name__}', 'the iteration raised', {'src': src, 'on': on, 'decisions': ds, 'error': repr(e)[:200]})
+            continue
+        dsl = '[' + '; '.join('None' if d is None else f'Some {cbool(d)}' for d in ds) + ']'
+        if on == 'leave':
+            exp = '[' + '; '.join(str(i) for i, _ in out) + ']'
+            t = f'match lrun 4000 [E {enc(W)}] {dsl} [] with Some (o, _) => nl_eqb o {exp} | None => false end'
+        else:
+            exp = '[' + '; '.join(f'({i}, {cbool(l)})' for i, l in out) + ']'
+            t = f'match brun 4000 [E {enc(W)}] {dsl} [] with Some (o, _) => pl_eqb o {exp} | None => false end'
+        ctx.tick(('leave-corr', src, ids and W.src[:40], on, tuple(ds)), f'leave-corr:{on}:' + ('send-true' if True in ds else 'quiet'))
+        terms.append(t)
+        meta.append({'src': src, 'walk_root': type(W.a).__name__, 'on': on, 'decisions': ds, 'real_yields': out})
+    failed = coq_eval_bools('C15_leave', LHDR, terms, shard=40)
+    ctx.correspondence("models/WalkLeave.v lrun / brun == nodes yielded by the real walk(True, on='leave' / on='both') under the same send() decisions (unmodified trees, any walk root with children)",
+                       len(terms), [meta[i] for i in failed])
+
+
 RESEND_PROGS = ['r = [a, [b, c], d]\n', 'x = f(a, g(b, k=c), d)\ny = 1\n', 'if a:\n    b = (c, {d: e})\nelse:\n    z = -w\n', 'v = [i for i in (j, k) if l]\n']
 
 
@@ -498,6 +562,7 @@ def run(ctx: Ctx):
     run_guarded(ctx, stage_oracle, progs)
     run_guarded(ctx, stage_scope_targets)
     run_guarded(ctx, stage_resend)
+    run_guarded(ctx, stage_leave_corr, progs)
     run_guarded(ctx, stage_corr, progs)
 
 
